@@ -792,3 +792,175 @@ Example ex_sat_bcdd_cached :
   | None => False
   end.
 Proof. vm_compute. split; reflexivity. Qed.
+
+(** ** ZBDD *)
+
+From OxiVerif Require Import DD.CanonZbdd.
+
+Lemma all_lo_S : forall c from k,
+  all_lo c from (S k) = Nat.eqb (c from) 1 && all_lo c (S from) k.
+Proof. reflexivity. Qed.
+
+Section SatZbdd.
+Variable s : snap.
+Hypothesis H : WF s.
+Hypothesis Hkind : s_kind s = KZbdd.
+
+Let n := nlevels s.
+
+Lemma zbdd_binary : binary (s_kind s).
+Proof. unfold binary. rewrite Hkind. discriminate. Qed.
+
+(** the function of [r] seen from level [l] *)
+Definition Fz (l : nat) (r : ref) : lasg -> bool :=
+  fun a => opt_true (semz s (S n) l r (choice_of a)).
+
+Lemma paths_T : forall f t, paths_zbdd s f (RT t) =
+  match term_val s t with
+  | Some v => Some (if N.eqb v 1 then 1 else 0)%N
+  | None => None
+  end.
+Proof. intros. unfold paths_zbdd. rewrite walk_T. reflexivity. Qed.
+
+(** the recursion equation: then + else *)
+Lemma paths_node : forall f id nd e0 e1,
+  find_node s id = Some nd -> nchildren nd = [e0; e1] ->
+  paths_zbdd s (S f) (RN id) =
+  match paths_zbdd s f (eref e0), paths_zbdd s f (eref e1) with
+  | Some a, Some b => Some (a + b)%N
+  | _, _ => None
+  end.
+Proof.
+  intros f id nd e0 e1 E Hc. unfold paths_zbdd.
+  rewrite (walk_node _ s f id false nd e0 e1 E Hc). reflexivity.
+Qed.
+
+Lemma Fz_indep : forall l r i, i < l -> indep (Fz l r) i.
+Proof.
+  intros l r i Hi a b. unfold Fz. f_equal. apply semz_ext. intros x Hx.
+  apply choice_of_updb_other. lia.
+Qed.
+
+(** a level skipped in front of a reference must be false *)
+Lemma Fz_lo : forall l r a, ref_ok s r -> l < rlevel s r ->
+  Fz l r a = negb (a l) && Fz (S l) r a.
+Proof.
+  intros l r a Hok Hl. unfold Fz. destruct r as [t|id].
+  - destruct Hok as [v Ev]. rewrite !semz_T, Ev. simpl in Hl. fold n in Hl. fold n.
+    replace (n - l) with (S (n - S l)) by lia. rewrite all_lo_S.
+    unfold choice_of at 1. simpl opt_true.
+    destruct (a l); simpl; destruct (N.eqb v 1); reflexivity.
+  - destruct Hok as [nd E]. rewrite !semz_S, E. rewrite (rlevel_node s id nd E) in Hl.
+    destruct (Nat.ltb_spec (nlevel nd) l) as [X|_]; [lia|].
+    destruct (Nat.ltb_spec (nlevel nd) (S l)) as [X|_]; [lia|].
+    replace (nlevel nd - l) with (S (nlevel nd - S l)) by lia. rewrite all_lo_S.
+    unfold choice_of at 1. destruct (a l); simpl; reflexivity.
+Qed.
+
+Definition Zc (l : nat) (r : ref) : N := cnt (n - l) l (Fz l r).
+
+Lemma Zc_step : forall l r, ref_ok s r -> l < rlevel s r -> Zc l r = Zc (S l) r.
+Proof.
+  intros l r Hok Hl. pose proof (rlevel_le s H r) as Hle. fold n in Hle.
+  unfold Zc. replace (n - l) with (S (n - S l)) by lia.
+  apply cnt_lo; [apply Fz_indep; lia | intros a; apply Fz_lo; assumption].
+Qed.
+
+Lemma Zc_lower : forall d l r, ref_ok s r -> l + d = rlevel s r -> Zc l r = Zc (rlevel s r) r.
+Proof.
+  induction d as [|d IH]; intros l r Hok Hl.
+  - replace l with (rlevel s r) by lia. reflexivity.
+  - rewrite (Zc_step l r Hok) by lia. apply IH; [exact Hok | lia].
+Qed.
+
+Lemma Fz_child : forall id nd e0 e1 a b,
+  find_node s id = Some nd -> nchildren nd = [e0; e1] ->
+  Fz (nlevel nd) (RN id) (updb a (nlevel nd) b) = Fz (S (nlevel nd)) (eref (if b then e0 else e1)) a.
+Proof.
+  intros id nd e0 e1 a b E Hc. unfold Fz. f_equal.
+  set (x := if b then e0 else e1).
+  assert (Hn : nth_error (nchildren nd) (choice_of (updb a (nlevel nd) b) (nlevel nd)) = Some x).
+  { rewrite choice_of_updb_same, Hc. unfold x. destruct b; reflexivity. }
+  pose proof (node_semz s H id nd x (nlevel nd) _ E Hn (le_n _)) as Hs.
+  rewrite Nat.sub_diag in Hs. specialize (Hs eq_refl). unfold semzn in Hs. fold n in Hs.
+  rewrite Hs. apply semz_ext. intros l Hl. apply choice_of_updb_other. lia.
+Qed.
+
+Lemma Zc_node : forall id nd e0 e1, find_node s id = Some nd -> nchildren nd = [e0; e1] ->
+  (Zc (nlevel nd) (RN id) = Zc (S (nlevel nd)) (eref e0) + Zc (S (nlevel nd)) (eref e1))%N.
+Proof.
+  intros id nd e0 e1 E Hc. pose proof (wf_level s H id nd E) as Hl. fold n in Hl.
+  unfold Zc. replace (n - nlevel nd) with (S (n - S (nlevel nd))) by lia.
+  change (cnt (S (n - S (nlevel nd))) (nlevel nd) (Fz (nlevel nd) (RN id))) with
+    (cnt (n - S (nlevel nd)) (S (nlevel nd)) (fun a => Fz (nlevel nd) (RN id) (updb a (nlevel nd) true)) +
+     cnt (n - S (nlevel nd)) (S (nlevel nd)) (fun a => Fz (nlevel nd) (RN id) (updb a (nlevel nd) false)))%N.
+  rewrite (cnt_ext _ _ (fun a => Fz (nlevel nd) (RN id) (updb a (nlevel nd) true))
+             (Fz (S (nlevel nd)) (eref e0)))
+    by (intros a; apply (Fz_child id nd e0 e1 a true E Hc)).
+  rewrite (cnt_ext _ _ (fun a => Fz (nlevel nd) (RN id) (updb a (nlevel nd) false))
+             (Fz (S (nlevel nd)) (eref e1)))
+    by (intros a; apply (Fz_child id nd e0 e1 a false E Hc)).
+  reflexivity.
+Qed.
+
+Lemma paths_main : forall f r, ref_ok s r -> n - rlevel s r < f ->
+  paths_zbdd s f r = Some (Zc (rlevel s r) r).
+Proof.
+  induction f as [|f IH]; intros r Hok Hf; [lia|].
+  destruct r as [t|id].
+  - rewrite paths_T. destruct Hok as [v Ev]. rewrite Ev. f_equal.
+    unfold Zc. simpl rlevel. fold n. rewrite Nat.sub_diag. simpl cnt.
+    unfold Fz. rewrite semz_T, Ev. fold n. rewrite Nat.sub_diag. simpl.
+    rewrite andb_true_r. reflexivity.
+  - destruct Hok as [nd E]. rewrite (rlevel_node s id nd E) in *.
+    destruct (two_children s id nd H zbdd_binary E) as [e0 [e1 Hc]].
+    assert (I0 : In e0 (nchildren nd)) by (rewrite Hc; simpl; auto).
+    assert (I1 : In e1 (nchildren nd)) by (rewrite Hc; simpl; auto).
+    destruct (wf_child s H id nd e0 E I0) as [O0 L0].
+    destruct (wf_child s H id nd e1 E I1) as [O1 L1].
+    pose proof (rlevel_le s H (eref e0)) as B0. pose proof (rlevel_le s H (eref e1)) as B1.
+    fold n in B0, B1.
+    rewrite (paths_node f id nd e0 e1 E Hc).
+    rewrite (IH (eref e0) O0), (IH (eref e1) O1) by lia. f_equal.
+    rewrite (Zc_node id nd e0 e1 E Hc).
+    rewrite (Zc_lower (rlevel s (eref e0) - S (nlevel nd)) (S (nlevel nd)) (eref e0) O0) by lia.
+    rewrite (Zc_lower (rlevel s (eref e1) - S (nlevel nd)) (S (nlevel nd)) (eref e1) O1) by lia.
+    reflexivity.
+Qed.
+
+(** the number of paths to Base is the number of satisfying level-assignments *)
+Theorem paths_zbdd_correct_sec : forall r, ref_ok s r ->
+  paths_zbdd s (S n) r = Some (count_levels n (fun_zbdd s r)).
+Proof.
+  intros r Hok. rewrite paths_main by (auto; lia). f_equal.
+  rewrite <- (Zc_lower (rlevel s r) 0 r Hok) by lia.
+  unfold Zc, count_levels. rewrite Nat.sub_0_r. reflexivity.
+Qed.
+
+End SatZbdd.
+
+Theorem paths_zbdd_correct : forall s r, WF s -> s_kind s = KZbdd -> ref_ok s r ->
+  paths_zbdd s (S (nlevels s)) r = Some (count_levels (nlevels s) (fun_zbdd s r)).
+Proof. intros s r H Hk Hok. apply paths_zbdd_correct_sec; assumption. Qed.
+
+(** [sat_count(vars)] on ZBDDs, [vars >= num_levels]: every additional
+    variable doubles the count *)
+Theorem sat_zbdd_correct : forall s vars r, WF s -> s_kind s = KZbdd -> nlevels s <= vars ->
+  ref_ok s r ->
+  sat_zbdd s (S (nlevels s)) vars r =
+  Some (2 ^ N.of_nat (vars - nlevels s) * count_levels (nlevels s) (fun_zbdd s r))%N.
+Proof.
+  intros s vars r H Hk Hv Hok. unfold sat_zbdd. rewrite (paths_zbdd_correct s r H Hk Hok).
+  simpl option_map. unfold zbdd_shift.
+  destruct (Nat.leb_spec (nlevels s) vars) as [_|X]; [|lia]. simpl n_shl. f_equal. lia.
+Qed.
+
+Example ex_sat_zbdd_ok : wf_full_b ex_sat_zbdd = true.
+Proof. vm_compute. reflexivity. Qed.
+
+Example ex_sat_zbdd_count :
+  paths_zbdd ex_sat_zbdd 4 (RN 6) = Some 5%N /\
+  sat_zbdd ex_sat_zbdd 4 3 (RN 6) = Some 5%N /\
+  sat_zbdd ex_sat_zbdd 4 4 (RN 6) = Some 10%N /\
+  count_levels 3 (fun_zbdd ex_sat_zbdd (RN 6)) = 5%N.
+Proof. vm_compute. repeat split; reflexivity. Qed.
